@@ -3,7 +3,11 @@ and -u/-f as documented."""
 import random
 
 LEVEL = 'exploration'
-RULE = ('worlds of 1-3 modules whose test_suite() nests suites to depth <=3; '
+RULE = ('(1) every declaration pattern on a nesting of depth 3 - each of '
+        'the 4 positions declares layer in {none, A, B} and level in {none, '
+        '1, 2, 3}: 20736 shapes, all of them in the thorough tier (1200 '
+        'sampled in quick) - through --list-tests plus a 5-10% sample of '
+        'real runs; (2) worlds of 1-3 modules whose test_suite() nests suites to depth <=3; '
         'each suite and each TestCase class independently declares layer in '
         '{none, one of <=3 layers, the unit layer} and level in {none, -1, 0, '
         '1, 2, 3}; option vectors over --at-level {-1,0,1,2,3,10} / --all / '
@@ -27,11 +31,29 @@ def batch_size(tier):
     return 6
 
 
+def all_shapes():
+    """Every declaration pattern on a nesting of depth 3: each of the four
+    positions (outer suite, middle suite, inner suite, TestCase class)
+    declares layer in {none, A, B} and level in {none, 1, 2, 3}."""
+    import itertools
+    one = list(itertools.product([None, 'A', 'B'], [None, 1, 2, 3]))
+    return list(itertools.product(one, repeat=4))      # 20736
+
+
 def cases(tier, seed):
     rng = random.Random(seed * 6151 + 9)
-    n = 1200 if tier == 'quick' else 20000
-    return [{'idx': i, 'wseed': rng.randrange(1 << 30),
-             'nopts': 4 if tier == 'quick' else 6} for i in range(n)]
+    n = 1200 if tier == 'quick' else 12000
+    out = [{'idx': i, 'wseed': rng.randrange(1 << 30),
+            'nopts': 4 if tier == 'quick' else 6} for i in range(n)]
+    shapes = list(range(20736))
+    if tier == 'quick':
+        shapes = rng.sample(shapes, 600)
+    for i in range(0, len(shapes), 150):
+        out.append({'part': 'enum', 'idx': 100000 + i,
+                    'shapes': shapes[i:i + 150],
+                    'wseed': rng.randrange(1 << 30),
+                    'real_p': 0.1 if tier == 'quick' else 0.05})
+    return out
 
 
 def gen_opts(rng, spec):
@@ -84,7 +106,109 @@ def decl_stats(spec):
     return out
 
 
+def run_enum(case):
+    """Exhaustive declaration shapes through --list-tests (+ a sample of
+    real runs)."""
+    import common
+    import oracles
+    import runcase
+    import vworld
+    rng = random.Random(case['wseed'])
+    shapes = all_shapes()
+    viol = []
+    counters = {}
+    nt = 0
+
+    def C(k, n=1):
+        counters[k] = counters.get(k, 0) + n
+
+    for sidx in case['shapes']:
+        shape = shapes[sidx]
+        prefix = 'vwe%d' % sidx
+        node = {'t': 'class', 'name': 'TestC',
+                'tests': [{'name': 'test_a', 'kind': 'pass'},
+                          {'name': 'test_b', 'kind': 'pass'}]}
+        (l3, v3) = shape[3]
+        if l3:
+            node['layer'] = l3
+        if v3:
+            node['level'] = v3
+        for (l, v) in reversed(shape[:3]):
+            node = {'t': 'suite', 'ch': [node]}
+            if l:
+                node['layer'] = l
+            if v:
+                node['level'] = v
+        spec = {'prefix': prefix, 'layers_module': prefix + '_layers',
+                'layers': [{'name': 'A', 'kind': 'class', 'bases': [],
+                            'hooks': {'setUp': 'ok', 'tearDown': 'ok'}},
+                           {'name': 'B', 'kind': 'inst', 'bases': ['A'],
+                            'hooks': {'setUp': 'ok'}}],
+                'modules': [{'name': prefix + '_p.tests.test_m',
+                             'file': prefix + '_p/tests/test_m.py',
+                             'suite': node}]}
+        opts = rng.choice([{}, {'at_level': 2}, {'at_level': 3},
+                           {'only_level': 2}, {'all': True},
+                           {'at_level': 1, 'non_unit': True},
+                           {'unit': True, 'at_level': 2}])
+        want = vworld.expected_tests(spec, opts)
+        root = vworld.materialise(spec)
+        try:
+            wl = common.run_world(spec, None, opts,
+                                  extra_argv=['--list-tests'], root=root)
+            C('list_runs')
+            C('enum_shapes')
+            if wl.raised is not None:
+                viol.append({'rule': 'list-aborted', 'mech': 'run-raised',
+                             'detail': {'shape': shape,
+                                        'tb': (wl.raised_tb or '')[-500:]}})
+                continue
+            got = {}
+            for lname, tests in runcase.parse_listing(wl.out):
+                got.setdefault(lname, [])
+                got[lname] += [vworld.id_from_str(x) for x in tests]
+            if {k: sorted(v) for k, v in got.items()} != \
+                    {k: sorted(v) for k, v in want.items()}:
+                viol.append({'rule': 'listing-differs-from-model',
+                             'mech': 'level-layer-listing',
+                             'detail': {'shape': shape, 'opts': opts,
+                                        'got': got, 'want': want}})
+            ndecl_l = sum(1 for l, v in shape if l)
+            ndecl_v = sum(1 for l, v in shape if v)
+            if ndecl_l >= 2 or ndecl_v >= 2:
+                nt += 1
+                C('competing_decl_tests', 2)
+            C('tests_judged', 2)
+            C('excluded_tests', 2 - sum(len(v) for v in want.values()))
+            C('boundary_level_tests', 2)
+            if rng.random() < case['real_p']:
+                w = common.run_world(spec, None, dict(opts, verbose=1),
+                                     root=root)
+                C('real_runs')
+                if w.raised is None:
+                    ran = common.ran_counts(w.events)
+                    ids = sorted(t for ts in want.values() for t in ts)
+                    if sorted(ran) != ids:
+                        viol.append({'rule': 'executed-set-differs-from-model',
+                                     'mech': 'level-layer-selection',
+                                     'detail': {'shape': shape, 'opts': opts,
+                                                'ran': sorted(ran)}})
+                    v, st = oracles.layer_machine(w.events, spec)
+                    for x in v[:2]:
+                        x['detail'].update(shape=shape, opts=opts)
+                        if x['rule'] == 'test-under-wrong-layers':
+                            x['mech'] = 'nearest-layer-declaration'
+                        viol.append(x)
+        finally:
+            vworld.destroy(root)
+    return {'viol': viol[:8], 'evals': len(case['shapes']),
+            'distinct_count': nt, 'counters': counters,
+            'sample': {'part': 'enum', 'first_shape': shapes[case['shapes'][0]]}}
+
+
 def run_case(case):
+    if case.get('part') == 'enum':
+        return run_enum(case)
     import common
     import gen
     import oracles
